@@ -6,10 +6,11 @@
 //	p <hex text>   ParseTL2File(text, "v.tl2", TL2).  Result: "err <hex message>" or
 //	               "ok\t<hex Print(default)>\t<hex Print(canonical)>" followed, for every combinator, by
 //	               "\t<dump>\t<hex Combinator.Print(default)>\t<hex Combinator.Print(canonical)>"
-//	l <hex text>   the TL2 lexer: "err" or the significant tokens "<kind>:<hex val>" separated by blanks
+//	lex <hex text> the TL2 lexer: "err" or the significant tokens "<kind>:<hex val>" separated by blanks
 //	               (whitespace, tab, newline, comment and eof tokens dropped)
-//	t <hex text>   lexer, then parseTL2Type on the token list: "lexerr" | "omit" | "fail" |
+//	pty <hex text> lexer, then parseTL2Type on the token list: "lexerr" | "omit" | "fail" |
 //	               "ok <tref dump> <number of significant tokens left>"
+//	trim <hex text> <hex strings.TrimSpace(text)>
 //
 // <dump> is the translator of the Fmt2 family: the tlast.TL2Combinator as an S-expression that ocaml/drv_fmt2.ml
 // reads back into the Gallina AST of coq/theories/Fmt2/Fmt2Model.v.  It keeps exactly what the printers read:
@@ -240,16 +241,18 @@ func verifFmt2Op(line string) (res string) {
 			sb.WriteString("\t" + verifFmt2Dump(comb) + "\t" + verifFmt2Hex(cd.String()) + "\t" + verifFmt2Hex(cc.String()))
 		}
 		return sb.String()
-	case "l", "t":
+	case "trim":
+		return verifFmt2Hex(strings.TrimSpace(text))
+	case "lex", "pty":
 		lex := newLexer(text, "v.tl2", LexerOptions{LexerLanguage: TL2})
 		toks, err := lex.generateTokens()
 		if err != nil {
-			if f[0] == "t" {
+			if f[0] == "pty" {
 				return "lexerr"
 			}
 			return "err"
 		}
-		if f[0] == "l" {
+		if f[0] == "lex" {
 			var sb strings.Builder
 			sb.WriteString("ok")
 			for _, t := range toks {
